@@ -189,7 +189,7 @@ func init() {
 			}
 		}})
 
-	register(&Obligation{ID: "C05.c", Props: []string{"C05", "C06"}, Template: "canonical-construction",
+	register(&Obligation{ID: "C05.c", Props: []string{"C05", "C06", "C01"}, Template: "canonical-construction",
 		Desc: "partitioning.keyGroupRanges builds ranges in canonical form: cursor starts at 0; each range is {Start: cursor, End: cursor + count/n (+1 iff i < count mod n)}; cursor = End; NewKeySpace's lookup table assigns index i to every group in range i and the constructor stores the same ranges it indexed",
 		Run: func(r *Run) {
 			f := r.P.Func("partitioning", "keyGroupRanges")
@@ -397,7 +397,7 @@ func init() {
 			}
 		}})
 
-	register(&Obligation{ID: "C05.d", Props: []string{"C05", "C06"}, Template: "value-identity",
+	register(&Obligation{ID: "C05.d", Props: []string{"C05", "C06", "C01"}, Template: "value-identity",
 		Desc: "one deployment, one key space: Assembly.Deploy sends the same KeyGroupCount and operator list to runners and operators and assigns old checkpoints from config.KeySpace() = NewKeySpace(KeyGroupCount, WorkerCount); the operator builds NewKeySpace(req.KeyGroupCount, len(req.Operators)) and owns KeyGroupRanges()[index of its own id]",
 		Run: func(r *Run) {
 			hd := r.P.Func("workers/operator", "(*Operator).HandleDeploy")
